@@ -69,6 +69,10 @@ def explicit(tier, seed):  # noqa: C901
         yield case("final-result-%d" % (n - R), [{"k": "step", "val": 1}], prog_extra={"ret": {"big": n}})
     for n in (R - 300, R + 100):
         yield case("final-error-%d" % (n - R), [{"k": "raise", "cls": "ValueError", "msg": "e" * n}])
+    # mostly non-ASCII final results / errors: few characters, many bytes
+    for n in (900_000, 1_050_000, 2_200_000, 3_000_000):
+        yield case("final-result-cjk-%d" % n, [{"k": "step", "val": 1}], prog_extra={"ret": {"big": n, "ch": "\u6f22"}})
+    yield case("final-error-cjk", [{"k": "raise", "cls": "ValueError", "msg": "\u6f22" * 2_500_000}])
 
 
 SPEC = Spec(
